@@ -188,8 +188,12 @@ def run(c):
             work = []
             for i, tg in enumerate(targets):
                 rf = RANGES[i % len(RANGES)] if i % 3 else None
-                hdr = "Range: %s\r\n" % rf if rf else ""
-                raw = ("GET %s HTTP/1.1\r\nHost: localhost\r\n%s\r\n" % (tg, hdr)).encode("utf-8")
+                hdr = "%s: %s\r\n" % (("Range", "range", "RANGE")[i % 11 % 3], rf) if rf else ""
+                # the property speaks of requests, not of GET: one request in five uses another method
+                method = "GET" if i % 5 != 4 else ("HEAD", "POST", "OPTIONS", "PUT", "DELETE", "PATCH")[(i // 5) % 6]
+                if method in ("POST", "PUT", "PATCH"):
+                    hdr += "Content-Length: 0\r\n"
+                raw = ("%s %s HTTP/1.1\r\nHost: localhost\r\n%s\r\n" % (method, tg, hdr)).encode("utf-8")
                 work.append((tg, rf, raw))
             for entry in ("process", "legacy"):
                 results = fetch.inproc(t.root, [w[2] for w in work], entry=entry)
